@@ -143,10 +143,59 @@ def compile_one(cid, P, cname, fresh_env=False):
     return rec
 
 
+def compile_pipeline(cid, P, cnames):
+    """factory-selected pipeline over the compilation kinds of `cnames` (C09, second sentence)"""
+    import unified_planning as up
+    from unified_planning.engines.mixins.compiler import CompilationKind
+
+    rec = {"cid": cid, "comp": "+".join(cnames), "P": P, "Q": None, "pkeys": upj.keys_of(P), "qkeys": [], "back": [],
+           "skip": "", "raised": "none", "site": "", "detail": "", "declared": [], "qkind": [], "pkind": [],
+           "has_back_conversion": False, "pipeline": True, "declared_exc": "none",
+           "qnames": {"actions": [], "fluents": [], "objects": [], "types": []}}
+    try:
+        with time_limit(20):
+            problem = upj.build(P)
+        kinds = [getattr(CompilationKind, COMPILERS[c][2]) for c in cnames]
+        env = problem.environment
+        with time_limit(60):
+            try:
+                comp = env.factory.Compiler(problem_kind=problem.kind, compilation_kinds=kinds)
+            except up.exceptions.UPNoSuitableEngineAvailableException:
+                rec["skip"] = "no-pipeline"
+                return rec
+    except ImplTimeout:
+        rec["skip"] = "timeout"
+        return rec
+    except Exception as ex:
+        rec["skip"] = "build:" + type(ex).__name__
+        return rec
+    try:
+        with time_limit(120):
+            with comp:
+                res = comp.compile(problem)
+        rec["stages"] = comp.name
+        q = res.problem
+        rec["qkind"] = sorted(q.kind.features)
+        rec["has_back_conversion"] = res.plan_back_conversion is not None
+    except ImplTimeout:
+        rec["raised"] = "TIMEOUT"
+    except Exception as ex:
+        rec["raised"] = type(ex).__name__
+        rec["site"] = _site(ex)
+        rec["detail"] = str(ex)[:300]
+    return rec
+
+
 def worker(job):
     cid, P, cname, fresh = job
     try:
-        return compile_one(cid, P, cname, fresh)
+        if isinstance(cname, (list, tuple)):
+            return compile_pipeline(cid, P, list(cname))
+        r = compile_one(cid, P, cname, fresh)
+        r.setdefault("pipeline", False)
+        r.setdefault("declared_exc", "none")
+        r.setdefault("qnames", {"actions": [], "fluents": [], "objects": [], "types": []})
+        return r
     except Exception as ex:
         return {"cid": cid, "comp": cname, "P": P, "Q": None, "skip": "HARNESS:" + type(ex).__name__,
                 "detail": traceback.format_exc()[-1500:], "raised": "none", "back": [], "pkeys": [], "qkeys": []}
